@@ -118,9 +118,16 @@ def s3_commit(sp, ops=("append", "append"), K=2, lock="grantall", pause_max_ms=0
                 writes = [st for (st, k, a, b, af) in e.s3.put_log if a == i and "/metadata/v" in "/" + k and st < my_flip]
                 if not writes or not lock_key:
                     continue
-                holder = e.s3.content_at(lock_key[0], writes[-1])
-                sp.require(holder == my_id, f"{kinds}: committer {i} was acknowledged although the lock object did not carry its id when it "
-                           f"wrote its metadata file (before its commit point) (schedule {trace})", {"sig": f"{kinds}:acked-without-lock"})
+                # ownership = which committer's request wrote the lock object last (two handles may even carry the same id text)
+                last_writer = None
+                for (st, k, a, b, af) in e.s3.put_log:
+                    if k == lock_key[0] and st <= writes[-1]:
+                        last_writer = a
+                deleted_after = [st for (st, body) in e.s3.history.get(lock_key[0], []) if body is None and st <= writes[-1]]
+                still_there = e.s3.content_at(lock_key[0], writes[-1]) is not None
+                sp.require(still_there and last_writer == i, f"{kinds}: committer {i} was acknowledged although the lock object was last written by "
+                           f"committer {last_writer} (or released) when it wrote its metadata file, i.e. it had lost its lock before its commit point "
+                           f"(schedule {trace})", {"sig": f"{kinds}:acked-without-lock"})
 
 
 def obligations(tier):
